@@ -249,6 +249,24 @@ func main() {
 		}
 		jobs_ = append(jobs_, &job{ft, o, r})
 	}
+	// wire-type shapes: the field list of a struct is exactly the one the contract pins
+	for _, ss := range e.contracts.Structs {
+		if !wanted(ss.Tags) || *fnFilter != "" && !strings.Contains("struct:"+ss.Type, *fnFilter) {
+			continue
+		}
+		r := &OblResult{Fn: "struct", Name: "shape:struct " + ss.Type, Kind: "static", Tags: ss.Tags, Src: "fields of " + ss.Type + " are exactly: " + strings.Join(ss.Fields, " "),
+			Pos: fmt.Sprintf("%s:%d", ss.File, ss.Line), Solver: "go/types"}
+		got, err := e.structFields(ss)
+		switch {
+		case err != nil:
+			r.Status, r.Src = "missing", r.Src+" ("+err.Error()+")"
+		case strings.Join(got, " ") == strings.Join(ss.Fields, " "):
+			r.Status, r.OK = "unsat", true
+		default:
+			r.Status, r.Src = "sat", r.Src+"; the type has: "+strings.Join(got, " ")
+		}
+		out.Obligations = append(out.Obligations, r)
+	}
 	// write queries and solve
 	var wg sync.WaitGroup
 	sem := make(chan struct{}, *jobs)
